@@ -278,3 +278,24 @@ add('C20', 'min-length-strict', ERF, "        elif total_length >= min_length an
 add('C20', 'length-kernel-reordered-equivalent', ERF, "        elif total_length >= min_length and total_length <= max_length:", "        elif min_length <= total_length <= max_length:", 'silent')
 add('C20', 'terminal-set-any-instead-of-all', ERF, "            if x[0] not in terminal_set:\n                skip = True", "            if x[0] in terminal_set:\n                skip = False", 'fire', 'C20.R5')
 add('C20', 'prob-rewritten-rounded', ERF, [("        if not skip:\n            return_grammar += ''.join(line) + '\\t' + prob + '\\n'", "        if not skip:\n            return_grammar += ''.join(line) + '\\t' + str(round(float(prob), 6)) + '\\n'")], None, 'fire', 'C20.R4')
+
+# ---- C17 ------------------------------------------------------------------------------------------------------
+WLF = 'lib_princeling/wordlist_generation.py'
+add('C17', 'no-limit-passed (pinned defect)', WLF, "num_generated_guesses += pcfg.create_guesses(pt_item['pt'], limit = limit)", "num_generated_guesses += pcfg.create_guesses(pt_item['pt'])", 'fire', 'C17.R1')
+add('C17', 'loop-le', WLF, "while max_size is None or num_generated_guesses < max_size:", "while max_size is None or num_generated_guesses <= max_size:", 'fire', 'C17.R1')
+add('C17', 'limit-is-max-size', WLF, "                limit = max_size - num_generated_guesses", "                limit = max_size", 'fire', 'C17.R1')
+add('C17', 'file-writer-no-newline', PGF, "        self.output_file.write(guess)\n        self.output_file.write('\\n')", "        self.output_file.write(guess)", 'fire', 'C17.R2')
+add('C17', 'prince-folder-default', 'prince_ling.py', '            base_structure_folder = "Prince",\n', '', 'fire', 'C17.R3')
+add('C17', 'prince-tally-skips-unlabelled', 'lib_trainer/prince_metrics.py', "    for item in section_list:\n        count_prince[item[1]] += 1", "    for item in section_list:\n        if item[1][0] != 'O':\n            count_prince[item[1]] += 1", 'fire', 'C17.R4')
+
+# ---- C16 ------------------------------------------------------------------------------------------------------
+HSF_ = 'lib_guesser/honeyword_session.py'
+add('C16', 'weight-without-group-size', PGF, "cur_prob += self.grammar[pt_type][index]['prob'] * len(self.grammar[pt_type][index]['values'])", "cur_prob += self.grammar[pt_type][index]['prob']", 'fire', 'C16.R1')
+add('C16', 'weight-operands-swapped', PGF, "cur_prob += self.grammar[pt_type][index]['prob'] * len(self.grammar[pt_type][index]['values'])", "cur_prob += len(self.grammar[pt_type][index]['values']) * self.grammar[pt_type][index]['prob']", 'silent')
+add('C16', 'first-value-instead-of-choice', PGF, "            item = random.choice(self.grammar[pt_type][index]['values'])\n            new_guess = cur_guess + item", "            item = self.grammar[pt_type][index]['values'][0]\n            new_guess = cur_guess + item", 'fire', 'C16.R2')
+add('C16', 'choice-over-half-the-group', PGF, "            mask = random.choice(self.grammar[pt_type][index]['values'])", "            mask = random.choice(self.grammar[pt_type][index]['values'][:2])", 'fire', 'C16.R2')
+add('C16', 'seed-from-time', HSF_, "            random.seed(self.random_seed)", "            random.seed(self.random_seed + int(time.time()))", 'fire', 'C16.R3')
+add('C16', 'random-walk-seed-random', HSF_, "            self.random_seed = 1\n", "            self.random_seed = random.randint(0,1000)\n", 'fire', 'C16.R3')
+add('C16', 'seed-once-before-loop', HSF_, [("        while True:\n\n            # Intialize the random number generator", "        random.seed(self.random_seed)\n        while True:\n\n            # Intialize the random number generator"), ("            random.seed(self.random_seed)\n            \n", "            \n")], None, 'silent')
+add('C16', 'no-seed', HSF_, "            random.seed(self.random_seed)\n", "", 'fire', 'C16.R3')
+add('C16', 'honeyword-limit-not-decremented', HSF_, "                    limit = limit - num_generated_guesses\n                    if limit <= 0:\n                        break", "                    if limit <= num_guess_current:\n                        break", 'fire', 'C16.R4')
